@@ -367,7 +367,7 @@ func (x *faultExec) Exec(a []string) string {
 		return x.skip(a[1], a[2:])
 	case a[0] == "faultstats" && len(a) == 1:
 		if verifDebug {
-			for _, k := range sortedKeys(faultStats) {
+			for _, k := range faultSortedKeys(faultStats) {
 				fmt.Fprintf(os.Stderr, "  [faults] %s=%d\n", k, faultStats[k])
 			}
 		}
